@@ -287,8 +287,12 @@ fn new_run(codec: &str, input: Vec<u8>, script: VecDeque<(String, usize)>, scale
 /// property C13 on one observed run: items up to the first None / I/O error item.
 /// Returns None if the property holds on what was observed, else a description.
 fn judge(codec: &str, items: &[Item], want: &[Item], err_delivered: bool) -> Option<String> {
-    let end = items.iter().position(|i| i.0 == "none" || i.0 == "ioerr" || i.0 == "panic");
-    let yielded = &items[..end.unwrap_or(items.len())];
+    // an I/O error item does not end the stream: the frames behind it still have to come, in order
+    let end = items.iter().position(|i| i.0 == "none" || i.0 == "panic");
+    let yielded_all = &items[..end.unwrap_or(items.len())];
+    let surfaced = yielded_all.iter().any(|i| i.0 == "ioerr");
+    let yielded_vec: Vec<Item> = yielded_all.iter().filter(|i| i.0 != "ioerr").cloned().collect();
+    let yielded = &yielded_vec[..];
     if let Some(e) = end {
         if items[e].0 == "panic" {
             return Some("the stream panicked / ran away instead of yielding".into());
@@ -301,8 +305,8 @@ fn judge(codec: &str, items: &[Item], want: &[Item], err_delivered: bool) -> Opt
         Some("none") if norm(codec, yielded) != norm(codec, want) => {
             Some("None before all whole-stream frames were yielded".into())
         }
-        Some("none") if err_delivered => Some("an I/O error was delivered but never surfaced".into()),
-        Some("ioerr") if !err_delivered => Some("an I/O error item without an I/O error".into()),
+        Some("none") if err_delivered && !surfaced => Some("an I/O error was delivered but never surfaced".into()),
+        _ if surfaced && !err_delivered => Some("an I/O error item without an I/O error".into()),
         _ => None,
     }
 }
@@ -476,7 +480,7 @@ fn main_long(mut trace: Trace) {
             if k != "pending" {
                 items.push(item);
             }
-            if k == "none" || k == "ioerr" || k == "panic" || polls > want.len() + 2 * nscript + 10 {
+            if k == "none" || k == "panic" || polls > want.len() + 2 * nscript + 10 {
                 break;
             }
         }
@@ -485,9 +489,9 @@ fn main_long(mut trace: Trace) {
         total_frames += items.len();
         let verdict = judge(codec, &items, &want, err_delivered).or_else(|| {
             let last = items.last().map(|i| i.0).unwrap_or("");
-            if last != "none" && last != "ioerr" {
+            if last != "none" {
                 Some("the stream never ended".to_string())
-            } else if with_err != (last == "ioerr") {
+            } else if with_err != items.iter().any(|i| i.0 == "ioerr") {
                 Some("I/O error not surfaced / surfaced without cause".to_string())
             } else {
                 None
